@@ -415,7 +415,7 @@ def run(ctx):
                 root = build_small(t, id_mode, wd)
                 n_exh += 1
                 if not compare(ctx, root, f'exh{n}', sample=None if n_exh % 500 else dict(table=raw_table(root), impl=impl_verdict(root))):
-                    if ctx.n_new() >= 3:
+                    if ctx.n_new(with_input_only=True) >= 3:
                         return
     # inner node with three leaf children: every scope labelling (catches checks that only look at neighbouring children)
     for kind in ('prod', 'sum'):
@@ -427,7 +427,7 @@ def run(ctx):
                     o.id = j
                 n_exh += 1
                 if not compare(ctx, root, 'three-children'):
-                    if ctx.n_new() >= 3:
+                    if ctx.n_new(with_input_only=True) >= 3:
                         return
     ctx.extra['exhaustive_small_nets'] = n_exh
     ctx.extra['exhaustive'] = False
@@ -447,7 +447,7 @@ def run(ctx):
             ok = compare(ctx, bad, 'corrupt:' + name)
             if spec_verdict(bad) != 'accept' and ok and (k % 3 == 0 or not quick):
                 check_gates(ctx, bad, name, nv + 8)
-            if ctx.n_new() >= 3:
+            if ctx.n_new(with_input_only=True) >= 3:
                 return
     # (iv) histories: validation after earlier (failing and succeeding) calls of the same session
     for k in range(12 if quick else 200):
